@@ -1,10 +1,16 @@
 #!/bin/bash
 # Re-run every stored seeded change against the current checks: apply, run the property's quick
-# check, expect exit 1. Prints one line per change.
-cd /verif
+# check, expect exit 1. Prints one line per change. Works on /repo itself (restored after each
+# patch) or, with ZSIM_REPO / under `vp run --with-repo`, on a private copy of the repository.
+R=${VP_RUN_REPO:-${ZSIM_REPO:-/repo}}
+export ZSIM_REPO=$R
+cd "$(dirname "$0")/.."
+V=$PWD
 for d in seeded/*/; do
   id=$(basename $d); P=$(jq -r .breaks_property $d/meta.json)
-  if ! git -C /repo apply --check /verif/$d/patch.diff 2>/dev/null; then echo "$id $P DOES-NOT-APPLY"; continue; fi
-  out=$(tools/try_patch.sh /verif/$d/patch.diff $P 2>&1 | head -1)
-  echo "$id $out"
+  if ! git -C "$R" apply --check "$V/$d/patch.diff" 2>/dev/null; then echo "$id $P DOES-NOT-APPLY"; continue; fi
+  git -C "$R" apply "$V/$d/patch.diff"
+  out=$(./check "$P" quick 2>&1); rc=$?
+  echo "$id $P rc=$rc $(echo "$out" | grep -E 'quick:' | sed 's/.*wall, //')"
+  git -C "$R" checkout -- . ; git -C "$R" clean -fdq src
 done
